@@ -4,6 +4,7 @@ import (
 	"fmt"
 	"go/token"
 	"go/types"
+	"reflect"
 	"regexp"
 	"sort"
 	"strings"
@@ -27,7 +28,8 @@ func (c *Ctx) sortComparators(pkgRel string) []*ssa.Function {
 				return
 			}
 			n := cl.Call.StaticCallee().String()
-			if n != "sort.Slice" && n != "sort.SliceStable" {
+			// a sortedness test decides whether the sort runs: its comparator must be the same order
+			if n != "sort.Slice" && n != "sort.SliceStable" && n != "sort.SliceIsSorted" {
 				return
 			}
 			if mc, isMC := cl.Call.Args[1].(*ssa.MakeClosure); isMC {
@@ -38,6 +40,20 @@ func (c *Ctx) sortComparators(pkgRel string) []*ssa.Function {
 		})
 	}
 	return out
+}
+
+// hasBaseTag: a (pointer to a) struct with a member serialised as "@base".
+func hasBaseTag(t types.Type) bool {
+	st, ok := derefT(t).Underlying().(*types.Struct)
+	if !ok {
+		return false
+	}
+	for i := 0; i < st.NumFields(); i++ {
+		if strings.Split(reflect.StructTag(st.Tag(i)).Get("json"), ",")[0] == "@base" {
+			return true
+		}
+	}
+	return false
 }
 
 func runC18(c *Ctx) {
@@ -379,6 +395,45 @@ func runC18(c *Ctx) {
 			}
 		}
 		c.Check("C18.P1", "getObjectID", okG, goid.Pos(), fmt.Sprintf("getObjectID = '#'+id under @base, did+'#'+id otherwise (%s)", detail))
+	}
+	// the @base context entry is produced exactly when relative ids are: under the transformer's includeBase flag and
+	// nothing else (relative key and service ids cannot be resolved without it — services too, in a key-less document)
+	if td := c.Method(pDT, "Transformer", "TransformDocument"); td != nil {
+		var baseCalls []*ssa.Call
+		var ctxStore *ssa.MapUpdate
+		forEachInstr(td, func(in ssa.Instruction) {
+			switch x := in.(type) {
+			case *ssa.Call:
+				if g := x.Call.StaticCallee(); g != nil && inModule(g) && g.Blocks != nil {
+					forEachInstr(g, func(i2 ssa.Instruction) {
+						if al, isAl := i2.(*ssa.Alloc); isAl && hasBaseTag(al.Type()) {
+							baseCalls = append(baseCalls, x)
+						}
+					})
+				}
+			case *ssa.MapUpdate:
+				if c.Path(x.Key, nil) == `"@context"` {
+					ctxStore = x
+				}
+			}
+		})
+		okB := len(baseCalls) == 1 && ctxStore != nil
+		var extra []string
+		if okB {
+			common := map[string]bool{}
+			for _, cnd := range c.condsOf(ctxStore.Block()) {
+				common[cnd] = true
+			}
+			for _, cnd := range c.condsOf(baseCalls[0].Block()) {
+				if !common[cnd] {
+					extra = append(extra, cnd)
+				}
+			}
+			okB = len(extra) == 1 && extra[0] == "$0.includeBase=true"
+		}
+		c.Check("C18.P1", "@base-context-iff-includeBase", okB, td.Pos(), fmt.Sprintf("the @base context entry is added under the conditions %v (expected exactly [$0.includeBase=true]; %d producer call(s))", extra, len(baseCalls)))
+	} else {
+		c.Unresolved("C18.P1", "(*Transformer).TransformDocument")
 	}
 	if pk != nil {
 		c.mapLiteralRule("C18.P1", "verification-method", pk, "document.PublicKey", map[string]func(string) bool{
